@@ -148,6 +148,11 @@ def members_mismatch(sim, obj, i, V, dump):
     return None
 
 
+# the property being checked (set by run/search/replay before any schedule runs; worker processes inherit it):
+# a violation that belongs to another property does not stop a schedule and is only counted
+CURRENT_PID = None
+
+
 class Killed(BaseException):
     """the process dies right after handing its n-th message of this step to the transport"""
 
@@ -233,6 +238,9 @@ class Runner(object):
         return [i for i in self.V if i in self.sim.objs]
 
     def flag(self, sig, what):
+        if CURRENT_PID is not None and not for_property(CURRENT_PID, sig):
+            self.cov["other-property-violation:" + sig] += 1
+            return
         if sig in self.sigs and len(self.viol) > 12:
             return
         self.sigs.add(sig)
@@ -246,6 +254,15 @@ class Runner(object):
         """apply one atomic event (skipped when it cannot happen in the current state); monitors run after it"""
         if self.aborted:
             return False
+        if e[0] in ("rounds", "deliver_all"):
+            # adaptive composites (used in the scripted tail of a base schedule so that a variant that diverged from
+            # the recording still delivers what is in flight): they expand into atomic events, which are what is recorded
+            among = list(e[-1]) if e[-1] else None
+            if e[0] == "rounds":
+                self.rounds(e[1], among=among)
+            else:
+                self.deliver_all(among=set(among) if among else None)
+            return True
         self._n_send = 0
         try:
             return self._ev(list(e))
@@ -559,6 +576,7 @@ class Runner(object):
                 continue
             self.flag(v["signature"], v["what"])
         # per node: terms, indices, executions, permanence
+        newly = {}
         for i in self.V:
             o = sim.objs.get(i)
             if o is None:
@@ -584,10 +602,13 @@ class Runner(object):
                     w = self.committed.get(idx)
                     if w is None:
                         self.committed[idx] = (term, cmd)
+                        newly.setdefault(i, []).append(idx)
                     elif w != (term, cmd):
                         self.flag("restart:committed-entry-changed",
                                   "index %d was known committed with term %d; node %s now holds term %d %r there as committed"
                                   % (idx, w[0], i, term, cmd[:12]))
+        for i, idxs in newly.items():
+            self._majority_check(i, only=idxs)
         # older terms are not followed
         m, pre = ctx.get("msg"), ctx.get("pre")
         if m is not None and pre is not None and m.get("term", 10 ** 9) < pre["maxterm"]:
@@ -663,10 +684,28 @@ class Runner(object):
                       "node %s after restart and first tick: applied=%d but it knows commit=%d (journal %d..%d)"
                       % (i, la, c, first, lastidx))
 
-    def _majority_check(self, i):
-        """C04 across restarts: every position some node reported committed is still stored by a majority of the
-        voters once node i is back (in the log, or under the applied snapshot; a dead or not yet ticked node counts
-        with what it held when it was killed = what its files hold)"""
+    def _voters_by_log(self):
+        """the member set DEFINED BY THE LOG: the configured voters with the membership commands of the committed
+        entries carried out in order (never a node's own `otherNodes`)"""
+        M = list(self.V)
+        if not self.members:
+            return M
+        MEM = bytes([self.sim.so._COMMAND_TYPE.MEMBERSHIP])
+        for idx in sorted(self.committed):
+            cmd = self.committed[idx][1]
+            if isinstance(cmd, bytes) and cmd[:1] == MEM:
+                req = self.sim.so.pickle.loads(cmd[1:])
+                if req[0] == "add" and req[1] not in M:
+                    M.append(req[1])
+                elif req[0] == "rem" and req[1] in M:
+                    M.remove(req[1])
+        return M
+
+    def _majority_check(self, i, only=None):
+        """C04 across restarts: every position some node reported committed is stored by a majority of the voters
+        (member set defined by the log) — evaluated when a position is first reported committed (`only`) and for all
+        of them once a restarted node i is back.  Stored = in the log, or under the applied snapshot; a dead or not
+        yet ticked node counts with what it held when it was killed = what its files hold."""
         sim = self.sim
         views = {}
         for v in self.V:
@@ -681,14 +720,17 @@ class Runner(object):
             elif v in self.before:
                 b = self.before[v]
                 views[v] = (set((x[0], x[1]) for x in b["log"]), b["log"][0][0] if b["log"] else 1, b["covered"])
-        self.cov["restart:committed-positions-majority-checked"] += len(self.committed)
-        for idx in sorted(self.committed):
+        M = self._voters_by_log()
+        todo = sorted(self.committed) if only is None else sorted(only)
+        self.cov["restart:committed-positions-majority-checked" if only is None else "commit:new-positions-majority-checked"] += len(todo)
+        for idx in todo:
             term = self.committed[idx][0]
-            holders = [v for v, (ents, first, la) in views.items() if (idx, term) in ents or (idx < first and idx <= la)]
-            if 2 * len(holders) <= len(self.V):
+            holders = [v for v, (ents, first, la) in views.items() if v in M and ((idx, term) in ents or (idx < first and idx <= la))]
+            if 2 * len(holders) <= len(M):
                 self.flag("restart:committed-entry-not-majority-backed",
-                          "position %d (term %d) was reported committed; after the restart of node %s only %s of the voters %s "
-                          "still store it" % (idx, term, i, holders, self.V))
+                          "position %d (term %d) %s; only %s of the voters %s (member set defined by the log) store it"
+                          % (idx, term, ("was reported committed and node %s has been restarted since" % i) if only is None
+                             else ("is reported committed by node %s" % i), holders, M))
                 break
 
     # -- composite helpers (emit atomic events) --------------------------------------------------------
@@ -1219,9 +1261,49 @@ def base_members(r):
     return {"leader": N, "followers": [i for i in V if i != N], "old": L}
 
 
+def base_members_minority(r):
+    """a node is added AFTER every voter's dump position; a follower is restarted from journal + dump, the other
+    follower is cut off, and the restarted one stands for election: with the member set of its log (4) the votes of
+    2 are not enough"""
+    V = r.V
+    r.ev("connect_all")
+    L = r.elect()
+    if L is None:
+        return {}
+    F = [i for i in V if i != L]
+    r.ev("submit", L, "q0")
+    r.rounds(4)
+    for v in V:
+        r.ev("compact", v)
+    r.rounds(2)                                 # dumps taken before any membership change
+    r.ev("member", L, "add", "x")
+    r.rounds(5)
+    r.ev("submit", L, "q1")
+    r.rounds(4)
+    if r.sim.leader() != L or "x" not in [n.id for n in r.sim.objs[F[0]].otherNodes]:
+        return {}
+    info = {"leader": L, "followers": F, "lag": F[0], "window_from": len(r.events)}
+    r.rounds(1)
+    info["window_to"] = info["tail_at"] = len(r.events)
+    two = [F[0], L]
+    tail = []
+    for j in V:
+        if j != F[1]:
+            tail += [["cut", F[1], j], ["notice", F[1], j], ["notice", j, F[1]]]
+    tail += [["tick", F[0], 2.0], ["deliver_all", two], ["rounds", 6, two], ["submit", F[0], "q2"], ["rounds", 5, two]]
+    for j in V:
+        if j != F[1]:
+            tail.append(["connect", F[1], j])
+    tail.append(["rounds", 10, None])
+    info["tail_script"] = tail
+    for e in tail:
+        r.ev(*e)
+    return info
+
+
 BASES = {"vote": base_vote, "replication": base_replication, "snapshot": base_snapshot, "conflict": base_conflict,
          "members": base_members, "minority": base_minority, "snapshot_late": base_snapshot_late,
-         "snapshot_partial": base_snapshot_partial}
+         "snapshot_partial": base_snapshot_partial, "members_minority": base_members_minority}
 # (conflict: one batch per tick — with several pipelined batches and a conflicting LAST entry on the follower
 #  the real code alternates between two reset replies forever; a progress matter (C05), see notes/restart.md)
 BASE_CONF = {"vote": {}, "replication": {"appendEntriesBatchSizeBytes": 24},
@@ -1230,6 +1312,7 @@ BASE_CONF = {"vote": {}, "replication": {"appendEntriesBatchSizeBytes": 24},
              "members": {"dynamicMembershipChange": True, "appendEntriesBatchSizeBytes": 64},
              "minority": {"logCompactionBatchSize": 16, "appendEntriesBatchSizeBytes": 24},
              "snapshot_late": {"logCompactionBatchSize": 16, "appendEntriesBatchSizeBytes": 24},
+             "members_minority": {"dynamicMembershipChange": True, "appendEntriesBatchSizeBytes": 64},
              "snapshot_partial": {"logCompactionBatchSize": 16, "appendEntriesBatchSizeBytes": 2 ** 16}}
 
 
@@ -1272,6 +1355,8 @@ def directed_items(repo, name, spec, tmpdir, stride=1, offset=0, kinds=("between
     of those the shard j of K), and the recorded base run"""
     base, info = record_base(repo, name, spec, tmpdir)
     S = base.events
+    if info and "tail_script" in info:
+        S = base.events[:info["tail_at"]] + info["tail_script"]     # recorded head, scripted (adaptive) tail
     V = base.V
     sends = base.sends_of_event
     out = []
@@ -1420,6 +1505,8 @@ def plan(ctx):
         quick = ctx.tier == "quick"
         kinds = ("between", "at-send", "repeat")
         items.append(("directed", "snapshot_partial", 3, True, 1, ctx.seed, ("between", "at-send"), (0, 1)))
+        items.append(("directed", "members_minority", 3, True, 1, ctx.seed, ("between",), (0, 1)))
+        items.append(("directed", "members", 3, True, 12 if quick else 1, ctx.seed, kinds, (0, 1)))
         if quick:          # every kill position of the window of `minority`, in 4 shards
             for j in range(4):
                 items.append(("directed", "minority", 3, True, 1, ctx.seed, ("between",), (j, 4)))
@@ -1499,6 +1586,8 @@ def plan(ctx):
 
 
 def run(ctx):
+    global CURRENT_PID
+    CURRENT_PID = ctx.pid
     t0 = time.time()
     items = plan(ctx)
     budget = ctx.scale({"C10": 5.0, "C04": 7.0}.get(ctx.pid, 17.0), 270.0)
@@ -1603,6 +1692,8 @@ def shrink(repo, spec, events, sig, tmp, budget_s=10.0):
 
 def search(ctx, unproved):
     """More random schedules with a different stream (called when a theorem / correspondence broke)."""
+    global CURRENT_PID
+    CURRENT_PID = ctx.pid
     t0 = time.time()
     out = []
     tmp = ctx.tmpdir()
@@ -1619,6 +1710,8 @@ def search(ctx, unproved):
 
 
 def replay(ctx, violation):
+    global CURRENT_PID
+    CURRENT_PID = ctx.pid
     rp = violation.get("replay") or {}
     tmp = ctx.tmpdir()
     try:
